@@ -201,6 +201,79 @@ async def cwd_switch(net, hyg, plan):
         w.cleanup()
 
 
+async def same_name(net, hyg, plan):
+    """directories that contain an entry with their own name (proj/proj, lib/lib - file or directory, listed first), addressed
+    by their bare relative name; and a destination that is uploaded to, removed (named by a str) and uploaded to again"""
+    viol = []
+    mon = {"upload_tree": 0, "download_tree": 0, "recursive_list": 0, "remove_tree": 0, "same_name": 1}
+    kind = plan["inner"]          # "file" | "dir"
+    tree0 = {"/proj": DIR, "/proj/proj": b"x" if kind == "file" else DIR, "/proj/z.txt": b"z", "/proj/lib": DIR,
+             "/proj/lib/lib": b"y" if kind == "file" else DIR, "/proj/lib/w": b"w", "/keep.txt": b"k"}
+    if kind == "dir":
+        tree0["/proj/proj/deep.txt"] = b"d"
+    w = W.World(net, tree=tree0)
+    await w.start()
+    if plan["fallback"]:
+        del w.server.commands_mapping["mlsd"]
+        del w.server.commands_mapping["mlst"]
+    try:
+        c = aioftp.Client(path_io_factory=aioftp.MemoryPathIO)
+        await c.connect("127.0.0.1", 2121)
+        await c.login()
+
+        def under(prefix, recursive):
+            out = []
+            for k in tree0:
+                if k.startswith(prefix + "/"):
+                    rel = k[len(prefix) + 1:]
+                    if recursive or "/" not in rel:
+                        out.append(rel)
+            return sorted(out)
+        try:
+            for spelled, absolute, cd in (("proj", "/proj", None), ("lib", "/proj/lib", "/proj"), ("/proj", "/proj", None)):
+                if cd:
+                    await c.change_directory(cd)
+                for rec in (False, True):
+                    got = sorted(str(p_.relative_to(spelled)) for p_, _i in await c.list(spelled, recursive=rec))
+                    mon["recursive_list"] += 1
+                    if got != under(absolute, rec):
+                        viol.append({"key": f"listing-differs:entry-named-like-its-directory:{'fallback' if plan['fallback'] else 'mlsd'}",
+                                     "msg": f"plan {plan}: list({spelled!r}, recursive={rec}) from {cd or '/'} gives {got}, the directory holds {under(absolute, rec)}"})
+                if cd:
+                    await c.change_directory("/")
+            await c.download("proj", "/local", write_into=True)
+            mon["download_tree"] += 1
+            have = sorted(k[len("/local/"):] for k in memory_tree(c.path_io.fs) if k.startswith("/local/"))
+            if have != under("/proj", True):
+                viol.append({"key": "download-differs:entry-named-like-its-directory", "msg": f"plan {plan}: downloaded {have}, the directory holds {under('/proj', True)}"})
+            # upload, remove (named by a str), upload again: the same client, the same destination
+            memory_populate(c.path_io.fs, {"/src": DIR, "/src/only": DIR, "/src/f.txt": b"f"})
+            for rnd in range(2):
+                await c.upload(pathlib.Path("/src"), "dest", write_into=True)
+                mon["upload_tree"] += 1
+                t = w.tree()
+                if t.get("/dest") != DIR or t.get("/dest/only") != DIR or t.get("/dest/f.txt") != b"f":
+                    viol.append({"key": f"upload-wrong-after-remove:round-{rnd}", "msg": f"plan {plan}: /dest holds {sorted(k for k in t if k.startswith('/dest'))}"})
+                await c.remove("dest")
+                mon["remove_tree"] += 1
+                if any(k.startswith("/dest") for k in w.tree()):
+                    viol.append({"key": "remove-wrong:named-by-str", "msg": f"plan {plan}: after remove('dest'): {sorted(k for k in w.tree() if k.startswith('/dest'))}"})
+            await c.remove("proj")
+            mon["remove_tree"] += 1
+            if sorted(w.tree()) != ["/keep.txt"]:
+                viol.append({"key": "remove-wrong:entry-named-like-its-directory", "msg": f"plan {plan}: left {sorted(w.tree())}"})
+        except Exception as e:
+            viol.append({"key": "operation-raises:entry-named-like-its-directory", "msg": f"plan {plan}: {e!r}"[:300]})
+        try:
+            await c.quit()
+        except Exception:
+            pass
+        return viol, mon
+    finally:
+        await w.stop()
+        w.cleanup()
+
+
 async def client_reuse(net, hyg, plan):
     """one Client object, two sessions (quit / close, then connect again - to another server, or as another account with another
     home): the second session's upload, listing and removal are those of a fresh client"""
@@ -358,6 +431,8 @@ async def run_plan(net, hyg, plan):
         return await after_error(net, hyg, plan)
     if plan.get("op") == "client_reuse":
         return await client_reuse(net, hyg, plan)
+    if plan.get("op") == "same_name":
+        return await same_name(net, hyg, plan)
     rng = random.Random(plan["seed"])
     viol = []
     mon = {"upload_tree": 0, "download_tree": 0, "recursive_list": 0, "remove_tree": 0}
@@ -573,7 +648,7 @@ def run_case(case):
         for v in viol:
             v["replay_case"] = {"plans": [plan]}
             out["violations"].append(v)
-        out.setdefault("sample", {k: plan[k] for k in ("op", "destination", "write_into", "cwd", "fallback", "src_is_file")} | {"tree": sorted(plan["tree"])})
+        out.setdefault("sample", {k: plan.get(k) for k in ("op", "destination", "write_into", "cwd", "fallback", "src_is_file")} | {"tree": sorted(plan["tree"])})
     return out
 
 
@@ -620,6 +695,10 @@ def gen_cases(tier, seed):
                 for fb in (False, True):
                     plans.append({"seed": seed, "op": "cwd_switch", "order": order, "probes": probes, "act": act, "fallback": fb,
                                   "tree": {}, "destination": "", "write_into": False, "cwd": "/" + order[1], "src_is_file": False})
+    for inner in ("file", "dir"):
+        for fb in (False, True):
+            plans.append({"seed": seed, "op": "same_name", "inner": inner, "fallback": fb, "tree": {}, "destination": "", "write_into": False,
+                          "src_is_file": False, "src_name": "src"})
     for dest, wi in (("up", False), ("up", True), ("/abs/x", False), ("d/e", True)):
         for fb in (0, 1, 2):
             for cwd in (None, "/w"):
